@@ -23,7 +23,7 @@ RULE = ('cases = (elbow curve, detector configuration); elbows enumerated as a f
 ASSUMPTIONS = ['coordinates exactly representable (slopes j/8, integer spacings, dyadic offsets)', 'Kneedle only on monotone elbows with t=0 (as stated)',
                'L-method refinement run with the default limit=10']
 BOUNDS = {
-    'quick': {'arms (3,3)': 'all 4^6 spacing patterns x 12 slope pairs', 'arms {3,4,5}^2': 'patterns with <=1 deviation from uniform x 12 slope pairs x 3 offsets',
+    'quick': {'two-level spacing (left arm gap g1, right arm gap g2, all 16)': 'arms (3,3),(4,4),(3,5),(5,3) x 256 gentle slope pairs (j/8,(j+-1)/8) + 72 pairs', 'arms (3,3)': 'all 4^6 spacing patterns x 12 slope pairs', 'arms {3,4,5}^2': 'patterns with <=1 deviation from uniform x 12 slope pairs x 3 offsets',
               'arms {3,6,9,12}^2': 'uniform spacing + single deviations at 3 positions x 12 slope pairs', 'slopes': '12 representative ordered pairs + all 72 pairs of 9 slopes on uniform (3..5)^2'},
     'thorough': {'arms (3,3),(4,4),(3,5),(5,3)': 'uniform spacings x ALL 16512 ordered slope pairs', 'arms {3..6}^2': '<=1 deviation x 72 slope pairs x 3 offsets',
                  'arms {3,6,9,12,15}^2': 'uniform + single deviations x 24 slope pairs', 'arms (3,3)': 'all 4^6 patterns x 72 pairs'},
@@ -39,6 +39,7 @@ PAIRS12 = [(-8.0, -1.0), (-1.0, -8.0), (-1.0, -0.125), (-0.125, -1.0), (0.0, 1.0
            (-1.0, 1.0), (1.0, -1.0), (0.375, -0.625), (-0.625, 0.375)]
 PAIRS24 = PAIRS12 + [(0.0, -0.125), (-0.125, 0.0), (8.0, -8.0), (-8.0, 8.0), (0.125, 0.375), (0.375, 0.125), (-8.0, 0.0), (0.0, 8.0),
                      (1.0, 0.125), (0.125, 1.0), (-0.625, -8.0), (-1.0, 0.375)]
+GENTLE = [(j / 8.0, (j + d) / 8.0) for j in range(-64, 65) for d in (-1, 1) if -64 <= j + d <= 64]
 ALLPAIRS = None
 OFFSETS3 = [(0.0, 0.0), (1.0, 0.125), (4096.0, 4096.0)]
 OFFSETS1 = [(0.0, 0.0)]
@@ -57,6 +58,9 @@ def patterns(L, mode):
     G = (1, 2, 3, 4)
     if mode == 'all':
         return list(itertools.product(G, repeat=L))
+    if isinstance(mode, tuple) and mode[0] == 'twolevel':
+        a = mode[1]
+        return [tuple([g1] * a + [g2] * (L - a)) for g1 in G for g2 in G]
     out = []
     for base in G:
         u = [base] * L
@@ -78,6 +82,8 @@ SPACES = {
     'q33': ([(3, 3)], 'all', 'P12', OFFSETS1),
     'qsmall': ([(a, b) for a in (3, 4, 5) for b in (3, 4, 5) if (a, b) != (3, 3)], 'dev1', 'P12', OFFSETS3),
     'qslopes': ([(a, b) for a in (3, 4, 5) for b in (3, 4, 5)], 'uniform', 'P72', OFFSETS1),
+    'qtwolevel': ([(3, 3), (4, 4), (3, 5), (5, 3)], 'twolevel', 'GENTLE+P72', OFFSETS1),
+    'ttwolevel': ([(a, b) for a in (3, 4, 5, 6, 8) for b in (3, 4, 5, 6, 8)], 'twolevel', 'GENTLE+P72', OFFSETS3),
     'qlong': ([(a, b) for a in (3, 6, 9, 12) for b in (3, 6, 9, 12) if max(a, b) > 5], 'devcorner', 'P12', OFFSETS1),
     't33': ([(3, 3)], 'all', 'P72', OFFSETS1),
     'tall': ([(3, 3), (4, 4), (3, 5), (5, 3)], 'uniform', 'ALL', OFFSETS1),
@@ -87,11 +93,13 @@ SPACES = {
 
 
 def pairs_of(name, seed_pair=None):
+    if name == 'GENTLE+P72':
+        return GENTLE + PAIRS72
     return {'P12': PAIRS12, 'P24': PAIRS24, 'P72': PAIRS72, 'ALL': all_pairs()}[name]
 
 
 def units(tier, seed):
-    plan = [('q33', 48), ('qsmall', 96), ('qslopes', 24), ('qlong', 96)] if tier == 'quick' else [('t33', 128), ('tall', 256), ('tsmall', 512), ('tlong', 256)]
+    plan = [('q33', 48), ('qsmall', 96), ('qslopes', 24), ('qlong', 96), ('qtwolevel', 48)] if tier == 'quick' else [('t33', 128), ('tall', 256), ('tsmall', 512), ('tlong', 256), ('ttwolevel', 512)]
     u = [('elbows', name, k, K) for name, K in plan for k in range(K)]
     # seed-selected bonus: one extra slope pair and offset on the small arms
     sl = [j / 8.0 for j in range(-64, 65)]
@@ -185,7 +193,7 @@ def run_unit(unit, res):
     cnt = 0
     maxarm = 0
     for a, b in arms:
-        pats = patterns(a + b, mode)
+        pats = patterns(a + b, ('twolevel', a) if mode == 'twolevel' else mode)
         for gaps in pats:
             for (s1, s2) in prs:
                 for (x0, y0) in offs:
